@@ -256,8 +256,7 @@ theorem image_keys_transparent (ext : Nat → Nat) (hS : SiftContract ext) (m : 
     ← image_names_eq m rfl hD.order trans source fa _ _ hpre.keys hpre.decl hpre.qdecl]
   exact he
 
-/-- the hypotheses of `C13_preimage_partial` other than adjacency give `PreimagePreN` for the
-names at the levels -/
+/-- the hypotheses of `C13_preimage_any_order` give `PreimagePreN` for the names at the levels -/
 theorem preimagePreN_of_levels (m : Mgr) (hI : Inv m) (hO : OrderOK m.tbl) (target : Int)
     (hv : m.tbl.Mem target) (rn : List (Key × Key)) (qvars : List Key)
     (q : List Nat) (hq : mapToLevelE m.tbl qvars = .ok q)
@@ -308,8 +307,8 @@ theorem preimagePreN_of_levels (m : Mgr) (hI : Inv m) (hO : OrderOK m.tbl) (targ
     rw [e2] at this
     exact hind p hp p.2.toNat (by omega) this
 
-/-- C09 for `preimage`, arguments as in `C13_preimage_partial` (names or levels, resolving to
-declared levels at the time of the call) -/
+/-- C09 for `preimage`, arguments as in `C13_preimage_any_order` (names or levels, resolving to
+declared levels at the time of the call; no adjacency asked) -/
 theorem preimage_keys_transparent (ext : Nat → Nat) (hS : SiftContract ext) (m : Mgr)
     (hD : DynInv ext m) (trans target : Int) (ht : HeldX ext trans) (hs : HeldX ext target)
     (fa : Bool) (rn : List (Key × Key)) (qvars : List Key) (q : List Nat)
